@@ -67,9 +67,22 @@ func run(c Case) (res ev.Result) {
 		abs += int64(c.CloseAt)
 		metaWant = append(metaWant, absMsg{abs, eot})
 	}
-	if abs >= 1<<31 {
-		res.Skip = true
+	// the API carries deltas as uint32: a result track whose neighbours lie 2^32 ticks or more
+	// apart cannot be expressed, such sources are outside the domain
+	for _, w := range append([][]absMsg{metaWant}, func() (l [][]absMsg) {
+		for _, x := range chWant {
+			l = append(l, x)
+		}
 		return
+	}()...) {
+		var last int64
+		for _, e := range w {
+			if e.abs-last >= 1<<32 {
+				res.Skip = true
+				return
+			}
+			last = e.abs
+		}
 	}
 	src.Add(tr)
 	if c.ViaFile {
@@ -112,6 +125,9 @@ func run(c Case) (res ev.Result) {
 	res.Nontrivial = len(chWant) >= 3 && lateMeta && maxPerTick >= 3
 	if abs > 0x0FFFFFFF {
 		res.Classes = append(res.Classes, "total-ticks>0x0FFFFFFF")
+	}
+	if abs >= 1<<31 {
+		res.Classes = append(res.Classes, "total-ticks>=2^31")
 	}
 
 	if dst.Format() != 1 {
@@ -211,7 +227,7 @@ func genCase(t *rapid.T) Case {
 	for i := 0; i < n; i++ {
 		d := rapid.OneOf(rapid.Just(uint32(0)), rapid.Just(uint32(0)), rapid.Uint32Range(0, 2), rapid.Uint32Range(0, 500), rapid.Uint32Range(0, 200000),
 			rapid.SampledFrom([]uint32{0x0FFFFFFF, 0x0FFFFFFE, 0x08000000, 0x07FFFFFF})).Draw(t, "delta")
-		if abs+int64(d) >= 1<<31-1<<20 {
+		if abs+int64(d) >= 1<<38 {
 			d = 0
 		}
 		abs += int64(d)
@@ -237,7 +253,7 @@ func genCase(t *rapid.T) Case {
 }
 
 var conv = ev.NewCheck("C16", "convert",
-	"rapid: single-track smf.New() sources with 0..300 events (channel messages on 1..16 channels, metas, sysex), deltas biased to 0 (many events per tick, > 12 on one tick), closed or unclosed, all time divisions, every delta <= 0x0FFFFFFF (also the maximum itself, so that the gap between two messages of one result track can exceed it), total ticks < 2^31, as value or written+read back first; oracle = model: absolute tick per source message, non-channel messages (incl. the source's end-of-track) on track 0, one track per used channel in ascending order, per result track the (tick, bytes) sequence in source order followed by exactly one end-of-track, format 1, same division; non-trivial = >= 3 channels, a non-channel message after tick 0 and a tick with >= 3 events; distinct by case hash",
+	"rapid: single-track smf.New() sources with 0..300 events (channel messages on 1..16 channels, metas, sysex), deltas biased to 0 (many events per tick, > 12 on one tick), closed or unclosed, all time divisions, every delta <= 0x0FFFFFFF (also the maximum itself, so that the gap between two messages of one result track can exceed it), total ticks < 2^38 with neighbours of one result track less than 2^32 ticks apart (the API carries deltas as uint32), payloads starting or ending with magic sequences such as FF 2F 00, as value or written+read back first; oracle = model: absolute tick per source message, non-channel messages (incl. the source's end-of-track) on track 0, one track per used channel in ascending order, per result track the (tick, bytes) sequence in source order followed by exactly one end-of-track, format 1, same division; non-trivial = >= 3 channels, a non-channel message after tick 0 and a tick with >= 3 events; distinct by case hash",
 	genCase, run)
 
 func TestPropConvert(t *testing.T) { conv.Rapid(t, 2500, 50000) }
